@@ -228,7 +228,7 @@ def dump_options_header(header: str | None, options: t.Mapping[str, t.Any]) -> s
         if value is None:
             continue
 
-        if key[-1] == "*":
+        if key.endswith("*"):
             segments.append(f"{key}={value}")
         else:
             segments.append(f"{key}={quote_header_value(value)}")
@@ -274,7 +274,7 @@ def dump_header(iterable: dict[str, t.Any] | t.Iterable[t.Any]) -> str:
         for key, value in iterable.items():
             if value is None:
                 items.append(key)
-            elif key[-1] == "*":
+            elif key.endswith("*"):
                 items.append(f"{key}={value}")
             else:
                 items.append(f"{key}={quote_header_value(value)}")
